@@ -198,7 +198,53 @@ func (w *WaitGroup) Wait() {
 	w.wg.Wait()
 }
 
-type Pool = sync.Pool
+// Pool is sync.Pool; under the scheduler it is a deterministic LIFO free
+// list (the real pool's per-P caches and GC interaction would make replays
+// diverge), which is one of the behaviours the real pool may show.
+type Pool struct {
+	New   func() any
+	real  sync.Pool
+	mu    sync.Mutex
+	items []any
+}
+
+//go:norace
+func (p *Pool) Get() any {
+	if !vsched.Active() {
+		if v := p.real.Get(); v != nil {
+			return v
+		}
+		if p.New != nil {
+			return p.New()
+		}
+		return nil
+	}
+	vsched.YieldPC(uintptr(unsafe.Pointer(p)))
+	p.mu.Lock()
+	var v any
+	if n := len(p.items); n > 0 {
+		v = p.items[n-1]
+		p.items = p.items[:n-1]
+	}
+	p.mu.Unlock()
+	if v == nil && p.New != nil {
+		v = p.New()
+	}
+	return v
+}
+
+//go:norace
+func (p *Pool) Put(x any) {
+	if !vsched.Active() {
+		p.real.Put(x)
+		return
+	}
+	vsched.YieldPC(uintptr(unsafe.Pointer(p)))
+	p.mu.Lock()
+	p.items = append(p.items, x)
+	p.mu.Unlock()
+}
+
 type Cond = sync.Cond
 
 func NewCond(l Locker) *Cond { return sync.NewCond(l) }
